@@ -8,7 +8,7 @@ EXTENDS Pool
 AllStrategies == {"round_robin", "least_connections", "weighted_round_robin", "ip_hash", "ip_hash_consistent"}
 W321 == [b \in 1..N |-> IF b = 1 THEN 3 ELSE IF b = 2 THEN 2 ELSE 1]
 W111 == [b \in 1..N |-> 1]
-W2101 == [b \in 1..N |-> IF b = 1 THEN 2 ELSE IF b = 2 THEN 1 ELSE IF b = 3 THEN 1 ELSE 1]
+W2101 == [b \in 1..N |-> IF b = 1 THEN 2 ELSE 1]
 Hash2 == [c \in Clients |-> c * 5 + 1]
 
 InWin(b) == ~flag[b] /\ age[b] <= Win
